@@ -127,7 +127,7 @@ Section AfterPass.
   Lemma obj_sim_hsim x y : Pass.obj_sim x y -> is_dropped (o_hdr y) = is_dropped (o_hdr x) -> hsim x y.
   Proof.
     intros (t & k & ->) Hd. exists (set_mark k (set_tc t (o_hdr x))). split; [destruct x; reflexivity|].
-    cbn in Hd. cbn. auto.
+    cbn in Hd. cbn. auto 6.
   Qed.
 
   Lemma NoBad_app_log m m' l :
@@ -208,39 +208,37 @@ Section AfterPass.
     Qed.
 
     (** an object whose header changed is reachable, hence good *)
-    Lemma ap_changed o x x' : get m o = Some x -> get m2 o = Some x' -> o_hdr x' <> o_hdr x -> good_obj m o.
+    Lemma ap_hdr o x x' : get m o = Some x -> get m2 o = Some x' -> o_hdr x' = o_hdr x \/ good_obj m o.
     Proof.
-      intros Hx Hx' Hne.
+      intros Hx Hx'.
       destruct (PassMain.pass_hdr_bound K P m0 _ m1 pr ap_pre Hr o) as [He|[Hre _]].
-      - exfalso. apply Hne. unfold hdr_of in He. change (get m1 o) with (get m2 o) in He.
+      - left. unfold hdr_of in He. change (get m1 o) with (get m2 o) in He.
         change (get m0 o) with (get m o) in He. rewrite Hx, Hx' in He. exact He.
-      - eapply (reach_good K P); eauto. eapply PassMain.reach_heap; [| |exact Hre]; reflexivity.
+      - right. eapply (reach_good K P); eauto. eapply PassMain.reach_heap; [| |exact Hre]; reflexivity.
     Qed.
 
     Lemma ap_dead_hdr o x x' : get m o = Some x -> get m2 o = Some x' -> inD m o = true -> o_hdr x' = o_hdr x.
     Proof.
-      intros Hx Hx' Hi. destruct (decide (o_hdr x' = o_hdr x)) as [|Hne]; [assumption|].
-      destruct (ap_changed o x x' Hx Hx' Hne) as (y & Hy & _ & _ & Hi' & _). congruence.
+      intros Hx Hx' Hi. destruct (ap_hdr o x x' Hx Hx') as [|(y & Hy & _ & _ & Hi' & _)]; [assumption | congruence].
     Qed.
 
     Lemma ap_sinv :
       (forall t, t ∈ pc m2 -> t ∈ pc m /\ h_mark (hdr_of m2 t) = PC) -> SInv K b E [] m2.
     Proof.
       intros Hpc. destruct ap_rest as (R1 & R2 & R3 & R4 & R5 & R6 & R7 & R8 & R9 & R10 & R11 & R12).
-      eapply (SInv_hsim K b E [] m m2 HI ap_heaps); auto.
-      - rewrite R10. auto.
-      - exact ap_dead_hdr.
+      eapply (SInv_hsim K b E [] m m2 HI ap_heaps R1 R2 R3 R4 R5 R6 R7 R8 _ ap_dead_hdr).
+      Unshelve.
       - intros t Ht. destruct (Hpc t Ht) as [Hin Hmk]. split; [|exact Hmk].
         destruct (sv_pc _ _ _ _ _ HI t Hin) as (x & Hx & Hbx & Hvx & Hix & _). exists x. auto.
+      - intros H. exact H.
     Qed.
 
     Lemma ap_frm : FrM K E m m2.
     Proof.
       destruct ap_rest as (R1 & R2 & R3 & R4 & R5 & R6 & R7 & R8 & R9 & R10 & R11 & R12).
-      apply FrM_same; [|exact R7|exact R4].
-      apply (norm_heaps m m2 ap_heaps). intros o x x' Hx Hx' Hb.
-      destruct (decide (o_hdr x' = o_hdr x)) as [|Hne]; [assumption|].
-      destruct (ap_changed o x x' Hx Hx' Hne) as (y & Hy & Hby & _). congruence.
+      apply (FrM_hsim K E m m2 ap_heaps R7 R4); [|exact ap_dead_hdr].
+      intros o x x' Hx Hx' Hb.
+      destruct (ap_hdr o x x' Hx Hx') as [|(y & Hy & Hby & _)]; [assumption | congruence].
     Qed.
 
     Lemma ap_buf :
@@ -273,8 +271,8 @@ Section AfterPass.
 
     Lemma ap_panicked : pr = PPanicked -> forall t, t ∈ pc m2 -> t ∈ pc m /\ h_mark (hdr_of m2 t) = PC.
     Proof.
-      intros Hp t Ht. subst pr.
-      destruct (PassMain.pass_panicked K P m0 _ m1 ap_pre Hr) as (_ & Hsuf & _ & Hmk & _).
+      intros Hp t Ht. pose proof Hr as Hr'. rewrite Hp in Hr'.
+      destruct (PassMain.pass_panicked K P m0 _ m1 ap_pre Hr') as (_ & Hsuf & _ & Hmk & _).
       assert (Hin : t ∈ pc m).
       { destruct Hsuf as [k Hk]. change (pc m0) with (pc m) in Hk. rewrite Hk. apply elem_of_app. right. exact Ht. }
       split; [exact Hin|].
@@ -287,9 +285,9 @@ Section AfterPass.
     Lemma ap_done L : pr = PDone L ->
       NoDup L /\ pc m2 = [] /\ (forall g, g ∈ L -> Member m2 g) /\ ClosedL L E m2.
     Proof.
-      intros Hp. subst pr.
-      destruct (PassMain.pass_done_marks K P m0 _ m1 L ap_pre Hr) as (Hnd & Hpc & _ & Hmk & HL).
-      pose proof (PassMain.pass_closed K P m0 _ m1 L ap_pre Hr) as Hcl.
+      intros Hp. pose proof Hr as Hr'. rewrite Hp in Hr'.
+      destruct (PassMain.pass_done_marks K P m0 _ m1 L ap_pre Hr') as (Hnd & Hpc & _ & Hmk & HL).
+      pose proof (PassMain.pass_closed K P m0 _ m1 L ap_pre Hr') as Hcl.
       destruct ap_rest as (R1 & R2 & R3 & R4 & R5 & R6 & R7 & R8 & R9 & R10 & R11 & R12).
       split; [exact Hnd|]. split; [exact Hpc|]. split; [|split].
       - intros g Hg. destruct (HL g Hg) as ((x1 & Hx1 & Hb1) & _ & _).
@@ -297,21 +295,21 @@ Section AfterPass.
         destruct (hsim_proj _ _ Hs) as (Pb & Pv & _).
         assert (Hil : h_mark (o_hdr x1) = IL).
         { destruct (Hmk g) as [Hiff _]; [exists x1; auto|]. rewrite <- (hdr_of_get m1 g x1 Hx1). apply Hiff, Hg. }
-        assert (Hne : o_hdr x1 <> o_hdr x).
-        { intros He. assert (Hm : marked x = false) by (eapply (Ibuf_nomark_alloc K [] m); eauto; [congruence | apply not_elem_of_nil]).
+        destruct (ap_hdr g x x1 Hx Hx1) as [He|(y & Hy & Hby & Hvy & Hiy & _)].
+        { exfalso. assert (Hm : marked x = false) by (eapply (Ibuf_nomark_alloc K [] m); eauto; [congruence | apply not_elem_of_nil]).
           unfold marked, is_in_list_or_queue in Hm. rewrite <- He, Hil in Hm. discriminate. }
-        destruct (ap_changed g x x1 Hx Hx1 Hne) as (y & Hy & Hby & Hvy & Hiy & _). assert (y = x) by congruence. subst y.
+        assert (y = x) by congruence. subst y.
         exists x1. split; [exact Hx1|]. split; [congruence|]. split; [congruence|].
         split; [rewrite (inD_eq m m2 g R7); exact Hiy | exact Hil].
       - intros o Ho. destruct (Hcl o Ho) as (Hext & _). unfold extc in Hext. lia.
       - intros o Ho h c Hl. destruct (Hcl o Ho) as (Hext & Hfld & Hcln).
         apply (hloc_hsim m m2 _ _ _ ap_heaps R1 R2) in Hl.
         unfold extc, ext_refs in Hext.
-        destruct Hl as [i t' Hs | t' Hbg | p xp j t' Hp Hj | p xp t' Hp Hc'].
+        destruct Hl as [i t' Hs | t' Hbg | p xp j t' Hgp Hj | p xp t' Hgp Hc'].
         + exfalso. assert (0 < cnt_opt t' (slots m))%nat by (apply cnt_opt_pos; eauto). lia.
         + exfalso. apply cnt_id_pos in Hbg. lia.
-        + exists p. split; [reflexivity|]. apply (Hfld p xp j Hp Hj).
-        + exfalso. apply (Hcln p xp Hp Hc').
+        + exists p. split; [reflexivity|]. apply (Hfld p xp j Hgp Hj).
+        + exfalso. apply (Hcln p xp Hgp Hc').
     Qed.
   End One.
 End AfterPass.
